@@ -6,8 +6,8 @@ open WR WR.Sexp WR.C15
 
   (resolve-links (pages ((name payload) ...) ...) (links ((typ target rect) ...) ...))
       → (ok (links ((typ target rect) ...) ...) (anchors ((name payload) ...) ...) (names name ...))
-      resolveLinks under the iteration orders given in the request
-  (resolve-links-sorted …)   same with the proposed patch (anchors of a page in name order)
+      resolveLinks (current code: names sorted) under the iteration orders given in the request
+  (resolve-links-before-fix …)   the function before fix 37ac465 (anchors of a page in map order)
   (oof-stack w ...)          → placed boxes (x w) of oofPass stackLeft 0 in the given order
   (grid-span (fr 1 0 ...) span ((child coord size) ...)) → tracksChildren or (panic)
   (lang-quotes lang ((key value) ...)) → value chosen (no exact key; default "")
@@ -40,9 +40,8 @@ def getLinks (x : Sexp) : Option (List (List (Link String))) := do
 def resolve (sorted : Bool) (pages links : Sexp) : Option Sexp := do
   let ps ← getPages pages
   let ls ← getLinks links
-  let ps := if sorted then ps.map (isort byName) else ps
-  let r := resolveLinks ps ls
-  let names := (resolveAnchors [] ps).2
+  let r := if sorted then resolveLinks ps ls else resolveLinksBeforeFix ps ls
+  let names := if sorted then (resolveAnchorsSorted [] ps).2 else (resolveAnchors [] ps).2
   some (ok [.list (.atom "links" :: r.1.map fun l => .list (l.map putLink)),
             .list (.atom "anchors" :: r.2.map fun l => .list (l.map putEntry)),
             .list (.atom "names" :: names.reverse.map .str)])
@@ -53,8 +52,8 @@ def getItem : Sexp → Option GridItem
 
 def handle (req : Sexp) : Sexp :=
   match req with
-  | .list [.atom "resolve-links", pages, links] => (resolve false pages links).getD (Sexp.err "resolve-links: malformed")
-  | .list [.atom "resolve-links-sorted", pages, links] => (resolve true pages links).getD (Sexp.err "resolve-links-sorted: malformed")
+  | .list [.atom "resolve-links", pages, links] => (resolve true pages links).getD (Sexp.err "resolve-links: malformed")
+  | .list [.atom "resolve-links-before-fix", pages, links] => (resolve false pages links).getD (Sexp.err "resolve-links-before-fix: malformed")
   | .list (.atom "oof-stack" :: ws) =>
     match ws.mapM Sexp.asNat? with
     | some ws => ok ((oofPass stackLeft 0 ws).2.1.map fun b => .list [ofNat b.1, ofNat b.2])
